@@ -59,7 +59,7 @@ Pro4 == <<Config(1, 1001, "B", CfgB), Create(2, 1002), Create(3, 1003), Create(4
           Line(7, 1007, 3, "NICK", <<"bob">>), Line(8, 1008, 3, "USER", <<"ub", "0", "*", "B">>),
           Line(9, 1009, 2, "OPER", <<"op", "pw">>)>>
 (* a nick-only (not logged in) session, an away user, a channel created with upper-case letters, *)
-(* an invite-only channel with an operator of the network outside it                             *)
+(* an invite-only channel with an operator of the network outside it, holding a pending invitation *)
 Pro5 == <<Config(1, 1001, "A", CfgA), Create(2, 1002), Create(3, 1003), Create(4, 1004),
           Line(5, 1005, 2, "NICK", <<"alice">>), Line(6, 1006, 2, "USER", <<"ua", "0", "*", "A">>),
           Line(7, 1007, 3, "NICK", <<"bob">>), Line(8, 1008, 3, "USER", <<"ub", "0", "*", "B">>),
@@ -67,7 +67,7 @@ Pro5 == <<Config(1, 1001, "A", CfgA), Create(2, 1002), Create(3, 1003), Create(4
           Line(10, 1010, 2, "JOIN", <<"#A">>), Line(11, 1011, 3, "JOIN", <<"#a">>),
           Line(12, 1012, 2, "MODE", <<"#A", "+i">>), Line(13, 1013, 3, "AWAY", <<"gone">>),
           Create(14, 1014), Line(15, 1015, 14, "NICK", <<"dave">>), Line(16, 1016, 14, "USER", <<"ud", "0", "*", "D">>),
-          Line(17, 1017, 14, "OPER", <<"op", "pw">>)>>
+          Line(17, 1017, 14, "OPER", <<"op", "pw">>), Line(18, 1018, 2, "INVITE", <<"dave", "#a">>)>>
 Prologue == <<Pro1, Pro2, Pro3, Pro4, Pro5>>
 
 NickArgs == {"alice", "Alice", "bob", "dave", "1bad"}
